@@ -43,8 +43,12 @@ class Summaries:
         for n in cfg.nodes:
             if n.kind == "stmt" and n.label == "def":
                 continue
+            rfi = fi
+            src_q = n.extra.get("inlined_from")
+            if src_q and src_q in self.P.functions and self.P.functions[src_q].module is not fi.module:
+                rfi = self.P.functions[src_q]       # names inside an inlined body resolve in the helper's module
             for c in n.calls():
-                r = self.P.resolve_call(fi, c)
+                r = self.P.resolve_call(rfi, c)
                 if r.targets:
                     stats["calls_resolved"] += 1
                 elif r.external:
